@@ -28,6 +28,9 @@ const (
 	sigLimitCut   = "select-star|limit-smaller-than-series-count|rows-are-not-the-first-of-the-ordered-answer"
 	sigBTMEmpty   = "binary_tree_merge|query-spans-two-or-more-shards|empty-answer"
 	sigBTMPanic   = "binary_tree_merge|selector-over-two-or-more-shards|runtime panic: slice bounds out of range in the merge iterator"
+	sigMixedChunk = "mixed-layout|bytime-aggregate|inner-chunk-smaller-than-record"
+	sigMetaPrev   = "metamorphic-only|desc|fill(previous)|differs-from-the-ascending-answer-reversed"
+	sigMetaPhantom = "metamorphic-only|field-filter|aggregate|null-rows-of-phantom-windows-differ-between-cells"
 	sigMetaFill   = "metamorphic-only|bytime-fill-split-across-chunks|cells-differ"
 	sigPhantomAgg = "field-filter|aggregate|null-row-for-a-window-whose-passing-rows-have-no-value-of-the-aggregated-field"
 )
@@ -122,6 +125,29 @@ func attribute(q *querySpec, cl cell, rows []mrow, schema map[string]byte, obs *
 		m.set(&qk)
 	}
 	base := evaluate(q, rows, schema, cl.Desc, qk)
+	// the null rows of phantom windows appear in some configurations only: judge the
+	// answer without them against the models that do not produce them
+	if q.Agg && hasField && (q.Interval == 0 || q.Fill == "none") {
+		if stripped, n := stripPhantom(q, base, obs); n > 0 {
+			for mask := 0; mask < 1<<len(models); mask++ {
+				var k quirks
+				fs := []finding{{sigPhantomAgg, fmt.Sprintf("%d null rows for windows whose rows pass the filter but have no value of %s", n, q.Field)}}
+				skip := false
+				for i, m := range models {
+					if mask&(1<<i) != 0 {
+						if m.sig == sigPhantomAgg {
+							skip = true
+						}
+						m.set(&k)
+						fs = append(fs, finding{m.sig, m.what})
+					}
+				}
+				if !skip && checkReference(evaluate(q, rows, schema, cl.Desc, k), stripped) == nil {
+					return fs
+				}
+			}
+		}
+	}
 	if cl.BTM && len(obs.Series) == 0 && len(base.Series) > 0 {
 		return []finding{{sigBTMEmpty, mm.String()}}
 	}
@@ -134,6 +160,9 @@ func attribute(q *querySpec, cl cell, rows []mrow, schema map[string]byte, obs *
 			return []finding{{sigLimitCut, mm.String()}}
 		}
 		return unexplained
+	}
+	if q.Interval > 0 && cl.Layout == "mixed" && cl.Inner < 1024 {
+		return []finding{{sigMixedChunk, mm.String()}}
 	}
 	// row-level attribution against the expectation under the deterministic defect models
 	causes := map[string]string{}
@@ -157,13 +186,28 @@ func attribute(q *querySpec, cl cell, rows []mrow, schema map[string]byte, obs *
 		}
 		obsBy[s.Key] = s
 	}
-	if len(obsBy) != len(base.Series) {
+	// a series the model expects only as a phantom (no data at all) may be absent
+	nExp := 0
+	for _, es := range base.Series {
+		allEmpty := true
+		for _, g := range es.Groups {
+			allEmpty = allEmpty && g.Empty
+		}
+		if obsBy[es.Key] == nil && allEmpty && hasField {
+			continue
+		}
+		nExp++
+	}
+	if len(obsBy) != nExp {
 		return unexplained
 	}
 	split := fillSplitPossible(q, cl, len(base.Series))
 	for _, es := range base.Series {
 		os := obsBy[es.Key]
-		if os == nil || len(os.Rows) != len(es.Groups) {
+		if os == nil {
+			continue // optional phantom series (checked above)
+		}
+		if len(os.Rows) != len(es.Groups) {
 			return unexplained
 		}
 		phantomInSeries := false
@@ -276,6 +320,9 @@ func rowsOfFullAnswer(q *querySpec, rows []mrow, schema map[string]byte, desc bo
 			avail[valsText(a)]++
 		}
 	}
+	if len(obs.Series[0].Rows) > q.Limit {
+		return false
+	}
 	var last int64
 	for i, row := range obs.Series[0].Rows {
 		if len(row) != len(es.Kinds) {
@@ -318,4 +365,42 @@ func sameExpectation(a, b *expected) bool {
 		}
 	}
 	return true
+}
+
+// stripPhantom removes from obs the null rows of phantom windows (as flagged in base,
+// evaluated with the PhantomNull model) and the series left empty; n = rows removed.
+func stripPhantom(q *querySpec, base *expected, obs *answer) (*answer, int) {
+	phantom := map[string]map[int64]bool{}
+	for _, es := range base.Series {
+		for _, g := range es.Groups {
+			if !g.Phantom {
+				continue
+			}
+			m := phantom[es.Key]
+			if m == nil {
+				m = map[int64]bool{}
+				phantom[es.Key] = m
+			}
+			for _, a := range g.Alts {
+				m[a[0].I] = true
+			}
+		}
+	}
+	out := &answer{}
+	n := 0
+	for _, s := range obs.Series {
+		ns := obsSeries{Tags: s.Tags, Key: s.Key, Cols: s.Cols}
+		for _, row := range s.Rows {
+			t, ok := rowTime(row)
+			if ok && len(row) == 2 && row[1] == nil && phantom[s.Key][t] {
+				n++
+				continue
+			}
+			ns.Rows = append(ns.Rows, row)
+		}
+		if len(ns.Rows) > 0 {
+			out.Series = append(out.Series, ns)
+		}
+	}
+	return out, n
 }
